@@ -159,6 +159,16 @@ def gen_c06_extra(ctx, thorough):
     for i in range(8):
         steps.append({"op": "wu", "sid": 0, "inc": 16000})
     out.append({'tag': 'share', 'cfg': {'maxConc': 4}, 'steps': steps})
+    # a window increase and an INITIAL_WINDOW_SIZE decrease in one write: what the increase releases goes out BEFORE the
+    # decrease is acknowledged, never after (the ACK says "from here on I respect the new window")
+    for grant, iw2 in ((50000, 5535), (20000, 0), (100000, 60000), (16384, 1)):
+        for order in ('wu-first', 'settings-first'):
+            burst = [{"op": "wu", "sid": 1, "inc": grant}, {"op": "settings", "pairs": [[4, iw2]]}]
+            if order == 'settings-first':
+                burst.reverse()
+            steps = [{"op": "wu", "sid": 0, "inc": 1000000}] + req(1) + req(3) + [finish(1, n=300000, kind=rng.choice(['buf', 'stream'])), finish(3, n=90000),
+                     {"op": "burst", "steps": burst}, {"op": "settings", "pairs": [[4, 65535]]}, {"op": "wu", "sid": 1, "inc": 400000}, {"op": "wu", "sid": 3, "inc": 400000}]
+            out.append({'tag': 'ack-order', 'cfg': {'maxConc': 4}, 'steps': steps})
     # k responses blocked at the same time, released by ONE window change (connection WINDOW_UPDATE, or INITIAL_WINDOW_SIZE):
     # every one of them must finish - whichever finishes first, in whatever order the server keeps them
     for k in (2, 3, 4, 5, 8):
@@ -413,6 +423,13 @@ def gen_c13_extra(ctx, thorough):
         steps += [{"op": "data", "sid": 1, "n": 1500, "es": False, "pad": -1} for _ in range(30)]
         steps += req(3) + [finish(3, n=1)]
         out.append({'tag': 'body-endless', 'cfg': cfg, 'steps': steps})
+    # a peer that has stopped reading floods DATA on an open stream: every frame is owed a WINDOW_UPDATE the server cannot
+    # get rid of - it has to push back, not to pile the replies up somewhere else
+    for nfr in (300, 900):
+        steps = [{"op": "hdr", "sid": 1, "fields": hdrs(1, "POST"), "es": False, "pad": -1}, {"op": "stopread"}]
+        steps += [{"op": "burst", "steps": [{"op": "data", "sid": 1, "n": 2, "es": False, "pad": -1} for _ in range(300)]} for _ in range(nfr // 300)]
+        steps += [{"op": "settle"}, {"op": "resumeread"}] + req(3) + [finish(3, n=1)]
+        out.append({'tag': 'data-flood-stopread', 'cfg': dict(cfg, outCap=512), 'steps': steps})
     # control-frame floods with slow handlers and a peer that reads slowly
     for kind in ('ping', 'settings'):
         fl = [({"op": "ping", "n": i} if kind == 'ping' else {"op": "settings", "pairs": [[3, 10]]}) for i in range(N)]
@@ -557,6 +574,28 @@ def gen_c17_extra(ctx, thorough):
             steps = pre + [fr] + req(3) + [finish(3, n=2), {"op": "ping", "n": 1}, {"op": "close"}]
             out.append({'tag': 'late-' + name, 'cfg': {'maxConc': 4}, 'steps': steps})
     out += gen_frame_shapes(ctx, thorough, 260)
+    # the idle timer fires while the stream loop is held just before its select with a new request already waiting: the
+    # select may take the request first (which re-arms the timer) and the close second.  Whichever it takes, nothing may
+    # panic when the timer comes round again, and the connection still ends.  (A coin is tossed inside select: several copies.)
+    for k in range(4 if thorough else 2):
+        steps = req(1) + [{"op": "slpark"}, {"op": "wait", "ms": 230}] + req(3) + [{"op": "slrelease"}, {"op": "wait", "ms": 400},
+                                                                                 finish(1, n=2), finish(3, n=2), {"op": "close"}]
+        out.append({'tag': 'idle-race', 'cfg': {'maxConc': 4, 'idleMs': 150}, 'steps': steps})
+        # ... or the stream loop has just decided to accept a new stream (the closing flag was still down) when the timer
+        # fires: it is held in the step hook between that decision and the timer's re-arming until the timer has run
+        steps = req(1) + [{"op": "hold", "ev": "sl.accept", "sid": 3}] + req(3) + [{"op": "wait", "ms": 230}, {"op": "slrelease"}, {"op": "wait", "ms": 400},
+                                                                                  finish(1, n=2), finish(3, n=2), {"op": "close"}]
+        out.append({'tag': 'idle-race', 'cfg': {'maxConc': 4, 'idleMs': 150}, 'steps': steps})
+        # ... the same, with a peer that has stopped reading: the GOAWAY cannot be written, the connection cannot finish
+        # closing, and lives long enough to see the re-armed timer come round
+        steps = req(1) + [{"op": "hold", "ev": "sl.accept", "sid": 3}] + req(3) + \
+            [{"op": "stopread"}, {"op": "wait", "ms": 230}, {"op": "slrelease"}, {"op": "wait", "ms": 400}, {"op": "resumeread"}, finish(1, n=2), finish(3, n=2), {"op": "close"}]
+        out.append({'tag': 'idle-race', 'cfg': {'maxConc': 4, 'idleMs': 150, 'outCap': 16}, 'steps': steps})
+        # ... and the waiting frame may be the trailers that complete a request on a stream that is already open
+        steps = [{"op": "hdr", "sid": 1, "fields": hdrs(1, "POST"), "es": False, "pad": -1}, {"op": "data", "sid": 1, "n": 3, "es": False, "pad": -1},
+                 {"op": "slpark"}, {"op": "wait", "ms": 230}, {"op": "hdr", "sid": 1, "fields": [["x-trailer", "t"]], "es": True, "pad": -1},
+                 {"op": "slrelease"}, {"op": "wait", "ms": 400}, finish(1, n=2), {"op": "close"}]
+        out.append({'tag': 'idle-race', 'cfg': {'maxConc': 4, 'idleMs': 150}, 'steps': steps})
     # more handlers running than the completion queue holds when the peer disconnects
     for nh in (140, 200):
         steps = []
